@@ -18,6 +18,32 @@ from harness.targets import Tok
 FIELDS = ['res', 'tags', 'view', 'oa']
 
 
+class AlwaysEqual:
+  def __eq__(self, other):
+    return True
+
+  def __ne__(self, other):
+    return False
+
+  __hash__ = object.__hash__
+
+
+class Elementwise:
+  """Array-like: == gives an object without a truth value."""
+
+  class _NoTruth:
+    def __bool__(self):
+      raise ValueError('truth value of an elementwise comparison is ambiguous')
+
+  def __eq__(self, other):
+    return Elementwise._NoTruth()
+
+  def __ne__(self, other):
+    return Elementwise._NoTruth()
+
+  __hash__ = object.__hash__
+
+
 def cases(tier, r):
   for _ in range(900 if tier == 'quick' else 15000):
     sig = argstore.random_sig(r)
@@ -54,9 +80,19 @@ def make_root(case):
           fdl.add_tag(n, k, r.choice(targets.TAGS))
         except Exception:
           pass
-    for p in sig:
+    for i, p in enumerate(sig):
       if p[1] in ('pk', 'ko') and p[0] not in n.__arguments__ and r.random() < 0.2:
         fdl.add_tag(n, p[0], r.choice(targets.TAGS))     # tagged argument without a value
+      elif p[1] == 'po' and i not in n.__arguments__ and r.random() < 0.3:
+        try:
+          fdl.add_tag(n, i, r.choice(targets.TAGS))      # ... keyed by index (positional-only)
+        except Exception:
+          pass
+      elif p[1] == 'vk' and r.random() < 0.25:
+        try:
+          fdl.add_tag(n, 'later_kw', r.choice(targets.TAGS))   # ... a **kwargs name not passed yet
+        except Exception:
+          pass
   return root
 
 
@@ -202,8 +238,10 @@ def execute(case):
       obs['survive'] = res
       obs['n_hit'] = base.__repr__().count('], [[') + 1
     elif op == 'tagged_value':
-      v = Tok(7779)
       r = random.Random(case['seed'])
+      # the held value may compare oddly: equal to everything, or (like an array) with a
+      # comparison result that has no truth value
+      v = r.choice([Tok(7779), Tok(7779), AlwaysEqual(), Elementwise()])
       tv = fdl.TaggedValue(tags=[tag], default=v)
       empty = fdl.TaggedValue(tags=[tag])
       holder = fdl.Config(graphs.node_fn(1, 0), p=[tv, {'k': tv}], q=(tv,))
